@@ -2,7 +2,7 @@
    Statements only; the proofs are in Framing.v, HdrProofs.v, HelperProofs.v, Proofs.v;
    the encoder and the well-formedness predicates are in Spec.v. *)
 From Coq Require Import List NArith Bool Arith.
-From Baize Require Import Lib.Wire Lib.Order C01.Model C01.Spec C01.Framing C01.HdrProofs C01.HelperProofs C01.Proofs.
+From Baize Require Import Lib.Wire Lib.Order Lib.Utf8 C01.Model C01.Spec C01.Utf8Proofs C01.Framing C01.HdrProofs C01.HelperProofs C01.Proofs.
 Import ListNotations.
 
 (* For every well-formed body (boundary free of CR/LF; preamble and contents free of "--boundary";
@@ -74,9 +74,8 @@ Theorem helper_exact :
 Proof. exact helper_exact_proof. Qed.
 Print Assumptions helper_exact.
 
-(* The property (names, filenames and header values over printable ASCII; C01_full in Spec.v also
-   covers other text, which the correspondence check covers): every chunking of the encoded form
-   yields exactly the encoded parts at the event level and exactly the encoded items from the helper. *)
+(* The property for names, filenames and header values over printable ASCII (where text and bytes coincide
+   in both charsets): the instance of C01_main below that was proved first; kept under its name. *)
 Theorem C01_main_partial :
   forall (b : bytes) (utf8 : bool) (pre : bytes) (first_crlf : bool) (fields : list field) (epi : bytes)
          (max_parts : nat) (max_mem : option nat) (chunks : list bytes),
@@ -87,6 +86,97 @@ Theorem C01_main_partial :
      parse_stream b utf8 max_parts max_mem chunks = HItems (map (field_item utf8) fields)).
 Proof. exact C01_main_proof. Qed.
 Print Assumptions C01_main_partial.
+
+(* ---- text: names, filenames, header values and field texts in the request's charset ---- *)
+
+(* The codec.  The strict UTF-8 decoder of Model.v (CPython's bytes.decode("utf-8")) inverts the encoder of
+   Lib/Utf8.v (str.encode("utf-8")) on every sequence of Unicode scalar values; it accepts nothing but
+   encodings, so "not valid UTF-8" and "the decoder fails" are the same; and every byte of an encoded text is
+   a character of the text or at least 0x80 (a quote, backslash, CR, LF, ';', ':', '=' or blank byte is that
+   character). *)
+Theorem utf8_codec :
+  (forall s b, Lib.Utf8.utf8 s = Some b -> utf8_decode (length b) b = Some s) /\
+  (forall b s, utf8_decode (length b) b = Some s -> Lib.Utf8.utf8 s = Some b) /\
+  (forall s b, Lib.Utf8.utf8 s = Some b -> forall x, In x b -> In x s \/ (128 <= x)%N).
+Proof. exact utf8_codec_proof. Qed.
+Print Assumptions utf8_codec.
+
+(* Part headers, as text.  [name] and [filename] are ANY text without double quote, backslash, CR, LF
+   (NUL, VT, FF, FS..US, NEL, NBSP, U+2028, U+3000, ... anywhere, also first or last: they are inside the
+   quotes) that the charset can carry (UTF-8: the Unicode scalar values; Latin-1: below U+0100); the values of
+   [extra] any text without CR, LF whose first and last character str.strip() keeps (or empty).  The block
+   rendered from their encodings parses, in the decoder's charset, to the event that carries the text. *)
+Theorem decode_headers_text :
+  forall (utf8 : bool) (name : list N) (filename : option (list N)) (extra : list header)
+         (nb : bytes) (fb : option bytes) (eb : list header),
+    tname_ok name = true -> tfilename_ok filename = true -> forallb textra_ok extra = true ->
+    encode_text utf8 name = Some nb -> encode_opt utf8 filename = Some fb -> encode_extra utf8 extra = Some eb ->
+    parse_part utf8 (render_headers nb fb eb) = PEvent (rendered_event name filename extra) /\
+    hdr_ok utf8 (render_headers nb fb eb) = true.
+Proof. exact decode_headers_text_proof. Qed.
+Print Assumptions decode_headers_text.
+
+(* The text of a field (what helper_exact's [item_of] is for a part without filename): charset UTF-8 and the
+   content the encoding of [t] -> [t]; charset UTF-8 and the content not valid UTF-8 -> every byte as the
+   character of the same number (safe_decode's Latin-1 fallback); charset Latin-1 -> likewise. *)
+Theorem field_text :
+  forall (f : tfield), t_filename f = None ->
+    (forall t, Lib.Utf8.utf8 t = Some (t_content f) -> tfield_item true f = IText (Some (t_name f)) t) /\
+    ((forall t, Lib.Utf8.utf8 t <> Some (t_content f)) -> tfield_item true f = IText (Some (t_name f)) (t_content f)) /\
+    tfield_item false f = IText (Some (t_name f)) (t_content f).
+Proof. exact field_text_proof. Qed.
+Print Assumptions field_text.
+
+(* The property.  A form whose fields carry text names, filenames and header values ([tform_ok]: as in
+   decode_headers_text; boundary free of CR/LF; preamble and contents free of "--boundary"), encoded in the
+   charset the decoder uses ([encode_fields]: defined iff the charset can carry every name), cut into chunks in
+   ANY way: at the event level exactly the parts (name, filename, header mapping as text; content byte for
+   byte) in order, then the epilogue; from the helper, within the limits, exactly the items. *)
+Theorem C01_main :
+  forall (b : bytes) (utf8 : bool) (pre : bytes) (first_crlf : bool) (tfields : list tfield) (fields : list field)
+         (epi : bytes) (max_parts : nat) (max_mem : option nat) (chunks : list bytes),
+    tform_ok b pre first_crlf tfields = true ->
+    encode_fields utf8 tfields = Some fields ->
+    concat chunks = form_body b pre first_crlf fields epi ->
+    collect (all_events (run_chunks b utf8 new_decoder chunks)) None = map tfield_done tfields ++ [PEpi] /\
+    (limits_ok max_parts max_mem fields ->
+     parse_stream b utf8 max_parts max_mem chunks = HItems (map (tfield_item utf8) tfields)).
+Proof. exact C01_main_text_proof. Qed.
+Print Assumptions C01_main.
+
+(* The full statement as it was laid down in Spec.v ([C01_full], repeated here word for word) before it
+   could be proved: a consequence of C01_main. *)
+Theorem C01_full_holds :
+  forall (b : bytes) (utf8 : bool) (pre : bytes) (first_crlf : bool) (epi : bytes)
+         (texts : list (list N * option (list N))) (fields : list field)
+         (max_parts : nat) (max_mem : option nat) (chunks : list bytes),
+    Forall2 (fun t f =>
+               forallb text_char (fst t) = true /\ encode_text utf8 (fst t) = Some (f_name f) /\
+               match snd t, f_filename f with
+               | Some ft, Some fb => forallb text_char ft = true /\ encode_text utf8 ft = Some fb
+               | None, None => True
+               | _, _ => False
+               end /\
+               forallb extra_ok (f_extra f) = true /\ has_sub (dashes b) (f_content f) = false)
+            texts fields ->
+    no_crlf b = true -> has_sub (dashes b) pre = false -> (first_crlf = true \/ pre = []) ->
+    concat chunks = form_body b pre first_crlf fields epi ->
+    limits_ok max_parts max_mem fields ->
+    exists items,
+      parse_stream b utf8 max_parts max_mem chunks = HItems items /\
+      Forall2 (fun t i =>
+                 match snd t, i with
+                 | None, IText n _ => n = Some (fst t)
+                 | Some ft, IFile n fn _ _ => n = Some (fst t) /\ fn = ft
+                 | _, _ => False
+                 end) texts items /\
+      Forall2 (fun f i =>
+                 match i with
+                 | IText _ txt => txt = safe_decode utf8 (f_content f)
+                 | IFile _ _ _ c => c = f_content f
+                 end) fields items.
+Proof. exact C01_full_proof. Qed.
+Print Assumptions C01_full_holds.
 
 (* Any two chunkings of the same well-formed body give the same parts and the same helper result. *)
 Theorem chunking_independent :
@@ -117,4 +207,21 @@ Example ex_limits : limits_ok 2 (Some 5) ex_fields.
 Proof. vm_compute. split; repeat constructor. Qed.
 
 Example ex_wf : wf_form ex_b true [120; 13]%N true (map field_part ex_fields) = true.
+Proof. vm_compute. reflexivity. Qed.
+
+(* ---- non-vacuity of the text statements: a file whose name is "a", NUL, U+20AC, U+2028 (a character
+   str.strip and str.splitlines know, last in the name), whose filename starts with NEL and ends with U+1F600,
+   with a header value "é;" U+3000 "x"; and a field whose name is VT, NBSP ---- *)
+
+Example ex_tform_ok : tform_ok ex_b [120; 13]%N true ex_tfields = true.
+Proof. vm_compute. reflexivity. Qed.
+
+Example ex_tencode_utf8 : encode_fields true ex_tfields = Some ex_tfields_utf8.
+Proof. vm_compute. reflexivity. Qed.
+
+(* Latin-1 cannot carry U+20AC: the hypothesis of C01_main fails, as it must *)
+Example ex_tencode_latin1 : encode_fields false ex_tfields = None.
+Proof. vm_compute. reflexivity. Qed.
+
+Example ex_tencode_latin1_ok : encode_fields false [ex_tfield2] = Some [ex_tfield2_latin1].
 Proof. vm_compute. reflexivity. Qed.
